@@ -226,6 +226,9 @@ def proc_spec(draw):
         'log_lines': draw(st.sampled_from([0, 0, 3])),
         'probe_running': draw(st.booleans()),
         'slow_ms': draw(st.sampled_from([0, 0, 700])) if k == 'none' else 0,
+        'linger_ms': draw(st.sampled_from([0, 0, 0, 2500])) if k == 'none' else 0,
+        'linger_first': draw(st.sampled_from(['wait', 'as_completed'])),
+        'reap_delay_ms': draw(st.sampled_from([0, 0, 300])),
     }
 
 
@@ -258,6 +261,13 @@ def run_proc_case(spec):
             raise Violation('wait_wrong', f'wait(timeout=0.15) while running reported {rec[1]}', signature=['wait_wrong', 'process'])
         if name == 'join' and rec[1] != 'None':
             raise Violation('join_raised', f'join(0.1) while running gave {rec[1]}', signature=['join_raised', 'running'])
+    lp = res.get('linger_probe')
+    if lp is not None:
+        if not lp['said_done']:
+            raise Violation('wait_incomplete', f"{spec['linger_first']}(timeout=20) did not report a child that ends after lingering {spec['linger_ms']} ms: {lp}", signature=['wait_incomplete', 'linger'])
+        if not lp['agreed']:
+            # 1.5 s of grace (the OS-level reaping may trail the report by milliseconds) against a child that lingers 2.5 s
+            raise Violation('accessors_disagree', f"{spec['linger_first']}() reported the child done after {lp['after_s']:.2f}s, but done()={lp['done_now']} exitcode={lp['exitcode_now']} and they still said 'not finished' 1.5 s later (the child lingers {spec['linger_ms']} ms after sending its outcome)", signature=['accessors_disagree', 'linger'])
     by = {name: (kind, payload) for name, kind, payload in recs}
     effective_kill = kill != 'none' and not res.get('kill_missed')
     if not effective_kill:
@@ -321,7 +331,7 @@ def run_proc_case(spec):
     return CaseInfo(
         nontrivial=not (ending == 'return' and kill == 'none'),
         descriptor=[spec['cell'], spec['accessors'][0], spec['exc'] if ending == 'raise' else None],
-        classes=('process', f'cell_{ending}_{kill}_{spec["phase"]}', 'first_' + spec['accessors'][0], 'kill_missed' if res.get('kill_missed') else 'as_planned', 'probed_while_running' if res.get('running') else 'not_probed'),
+        classes=('process', f'cell_{ending}_{kill}_{spec["phase"]}', 'first_' + spec['accessors'][0], 'kill_missed' if res.get('kill_missed') else 'as_planned', 'probed_while_running' if res.get('running') else 'not_probed', 'lingering_child' if spec.get('linger_ms') else 'prompt_exit', 'reaper_delayed' if spec.get('reap_delay_ms') else 'reaper_prompt'),
         sample={'ending': ending, 'kill': kill, 'phase': spec['phase'], 'accessors': list(spec['accessors']), 'records': recs},
     )
 
